@@ -94,7 +94,8 @@ def coq_check(ctx, name, cases, with_gen):
     texts = []
     for ch in chunks:
         t = SPEC_DEFS + (GEN_DEFS if with_gen else "")
-        t += "Definition cases := " + clist([case_term(*c) for c in ch]) + ".\n"
+        t += ("Definition cases : list (list sset_elt * Z * bool * list Z * option (list Z)) := "
+              + clist([case_term(*c) for c in ch]) + ".\n")   # typed: a chunk of all-empty results must still elaborate
         t += "Eval vm_compute in (bad_from 0 cases).\n"
         if with_gen:
             t += "Eval vm_compute in (gbad_from 0 cases).\n"
